@@ -62,41 +62,82 @@ class _Done:
         self.returncode, self.stdout, self.stderr = returncode, stdout, stderr
 
 
-def _run_on_tty(cmd, env, cwd):
-    """Run with stdout connected to a pseudo-terminal (isatty() is true for
-    the program); output post-processing of the tty is switched off so the
-    bytes arrive unchanged."""
+def _run_on_tty(cmd, env, cwd, out_tty=True, err_tty=False, in_tty=False):
+    """Run with stdout and/or stderr (and/or stdin) connected to
+    pseudo-terminals (isatty() is true for the program); output
+    post-processing of the ttys is switched off so the bytes arrive
+    unchanged."""
     import pty
     import select
     import termios
-    master, slave = pty.openpty()
-    attr = termios.tcgetattr(slave)
-    attr[1] = attr[1] & ~termios.OPOST
-    termios.tcsetattr(slave, termios.TCSANOW, attr)
-    p = subprocess.Popen(cmd, stdout=slave, stderr=subprocess.PIPE, stdin=subprocess.DEVNULL,
-                         env=env, cwd=cwd)
-    os.close(slave)
-    chunks = []
-    while True:
-        r, _, _ = select.select([master], [], [], 0.2)
-        if r:
+
+    def raw_pty():
+        master, slave = pty.openpty()
+        attr = termios.tcgetattr(slave)
+        attr[1] = attr[1] & ~termios.OPOST
+        termios.tcsetattr(slave, termios.TCSANOW, attr)
+        return master, slave
+
+    fds = {}
+    kw = {}
+    close_after = []
+    for name, want in (('stdout', out_tty), ('stderr', err_tty)):
+        if want:
+            mfd, sfd = raw_pty()
+            fds[mfd] = name
+            kw[name] = sfd
+            close_after.append(sfd)
+        else:
+            r, w = os.pipe()
+            fds[r] = name
+            kw[name] = w
+            close_after.append(w)
+    if in_tty:
+        imaster, islave = raw_pty()
+        kw['stdin'] = islave
+        close_after.append(islave)
+    else:
+        imaster = None
+        kw['stdin'] = subprocess.DEVNULL
+    p = subprocess.Popen(cmd, env=env, cwd=cwd, **kw)
+    for fd in close_after:
+        os.close(fd)
+    chunks = {'stdout': [], 'stderr': []}
+    live = set(fds)
+    while live:
+        r, _, _ = select.select(list(live), [], [], 0.2)
+        if not r:
+            if p.poll() is not None:
+                # drain once more, then stop
+                r, _, _ = select.select(list(live), [], [], 0.05)
+                if not r:
+                    break
+            else:
+                continue
+        for fd in r:
             try:
-                b = os.read(master, 65536)
+                b = os.read(fd, 65536)
             except OSError:
-                break
+                b = b''
             if not b:
-                break
-            chunks.append(b)
-        elif p.poll() is not None:
-            break
-    err = p.stderr.read().decode(errors='replace')
+                live.discard(fd)
+            else:
+                chunks[fds[fd]].append(b)
     p.wait()
-    os.close(master)
-    S.fired('stdout_is_tty')
-    return _Done(p.returncode, b''.join(chunks).decode(errors='replace'), err)
+    for fd in fds:
+        os.close(fd)
+    if imaster is not None:
+        os.close(imaster)
+    S.fired('stdout_is_tty' if out_tty else 'stdout_is_pipe')
+    if err_tty:
+        S.fired('stderr_is_tty')
+    if in_tty:
+        S.fired('stdin_is_tty')
+    return _Done(p.returncode, b''.join(chunks['stdout']).decode(errors='replace'),
+                 b''.join(chunks['stderr']).decode(errors='replace'))
 
 
-def exec_real(repo, argv, hashseed, rng, scratch, tty=False, optimize=False):
+def exec_real(repo, argv, hashseed, rng, scratch, tty=False, optimize=False, streams=None):
     """Unpatched run with real clock and real files in a scratch directory."""
     d = tempfile.mkdtemp(prefix='real', dir=scratch)
     try:
@@ -106,10 +147,11 @@ def exec_real(repo, argv, hashseed, rng, scratch, tty=False, optimize=False):
             env['PYTHONOPTIMIZE'] = '1'
             S.fired('interpreter_flags')
         p = None
-        if tty:
+        if tty or streams:
             env['TERM'] = 'xterm-256color'
+            st = streams or dict(out_tty=True)
             try:
-                p = _run_on_tty([PY, '-m', 'mininec.mininec'] + list(argv), env, d)
+                p = _run_on_tty([PY, '-m', 'mininec.mininec'] + list(argv), env, d, **st)
             except OSError:
                 S.fired('tty_unavailable')      # no pseudo-terminals in this sandbox
                 p = None
@@ -133,7 +175,7 @@ def exec_real(repo, argv, hashseed, rng, scratch, tty=False, optimize=False):
         shutil.rmtree(d, ignore_errors=True)
 
 
-def gen_cmdline(rng, env=None, kinds=None, force_opt=None, want=()):
+def gen_cmdline(rng, env=None, kinds=None, force_opt=None, want=(), sweep=None):
     """One command line with an option file (the H5 observable).  `want`
     lists generator features the model must have (bounded retries)."""
     for _ in range(200):
@@ -143,7 +185,7 @@ def gen_cmdline(rng, env=None, kinds=None, force_opt=None, want=()):
     pool, _ = G.gen_pool(rng, m, k=2)
     argv = ['-f', repr(pool[0])] + m.argv() + G.field_args(rng, m, force=force_opt)
     argv += ['--output-cmdline', 'opt.txt']
-    if rng.random() < 0.2:
+    if (rng.random() < 0.2 and sweep is None) or sweep:
         inc = float(repr(round(pool[1] - pool[0], 6)))
         if pool[0] + 2 * inc > 0.2:
             argv += ['--frequency-increment=%r' % inc, '--frequency-steps=%d' % rng.choice([2, 3])]
